@@ -17,7 +17,6 @@ import (
 	"verifharness/internal/ev"
 	"verifharness/internal/gen"
 	"verifharness/internal/reg"
-	"verifharness/internal/vstore"
 	"verifharness/internal/vt"
 )
 
@@ -107,29 +106,36 @@ func noteHistory(e *ev.Env, hs *histSpec, nontrivial bool) {
 func enumerateFaults(e *ev.Env, c *ev.Case, hs *histSpec) {
 	w, nt := runHistory(e, c, hs, nil, "")
 	noteHistory(e, hs, nt)
-	if w.store == nil {
+	if w.fs == nil {
 		e.Inconclusive("fault enumeration on a backend without an instrumented store")
 		return
 	}
-	for _, kind := range []string{"get", "set", "delete"} {
-		n := w.store.Calls(kind)
-		for i := 1; i <= n; i++ {
-			plan := kind + "#" + strconv.Itoa(i)
-			w2, _ := runHistory(e, c, hs, []vstore.Fault{{Kind: kind, N: i}}, plan)
-			e.Stat("fault_plans", 1)
-			e.Stat("fault_plans|"+kind, 1)
-			fired := false
-			for _, op := range w2.store.Ops {
-				if op.Err {
-					fired = true
-				}
-			}
-			if fired {
-				e.Stat("fault_plans_fired", 1)
-			} else {
-				e.Stat("fault_plans_not_reached", 1) // cannot happen before the fault: same prefix
+	ref := w.fs.ops // the fault-free journal: call #k is ref[k-1]
+	run := func(p *faultPlan, class string) {
+		w2, _ := runHistory(e, c, hs, p, p.String())
+		e.Stat("fault_plans", 1)
+		e.Stat("fault_plans|"+class, 1)
+		failed := 0
+		for _, op := range w2.fs.ops {
+			if op.Err {
+				failed++
 			}
 		}
+		if failed > 0 {
+			e.Stat("fault_plans_fired", 1)
+		} else {
+			e.Stat("fault_plans_not_reached", 1) // cannot happen: the prefix before call k is the same
+		}
+		if failed > 1 {
+			e.Stat("fault_plans_with_several_failed_calls", 1)
+		}
+	}
+	for k := 1; k <= len(ref); k++ {
+		kind := ref[k-1].Kind
+		run(&faultPlan{mode: pmRun, k: k, n: 1}, kind)                               // one call fails
+		run(&faultPlan{mode: pmRun, k: k, n: 2}, "two-calls-from-"+kind)             // calls k and k+1 fail
+		run(&faultPlan{mode: pmRun, k: k, n: 3}, "three-calls-from-"+kind)           // a short outage, then recovery
+		run(&faultPlan{mode: pmOutageReq, k: k}, "outage-to-request-end-from-"+kind) // outage until the request ends
 	}
 }
 
@@ -524,9 +530,21 @@ func corpus(e *ev.Env) {
 		cfg.req = hostTuple("https", cfg.host)
 		runHistory(e, c, &histSpec{cfg: cfg, nClients: 2, steps: mkSteps("fetch:0", "own:0", "fetch:1", "no-extractor-value:1", "own:0")}, nil, "")
 	})
+	// Session-store backend, single use, a two-call outage right after the token lookup: neither the
+	// removal nor the re-issue reaches the session, the used token stays in it.
+	e.Corpus("fault-session-single-use-outage", func(c *ev.Case) {
+		hs := &histSpec{cfg: fixedCfg(bSessStore, "header", true), nClients: 1, steps: mkSteps("fetch", "own", "replay-previous")}
+		// calls: #1 Set (session saved with the token), #2 Get (lookup), #3 Get (delRaw), #4 Get (setRaw)
+		for _, p := range []*faultPlan{{mode: pmRun, k: 3, n: 2}, {mode: pmOutageReq, k: 3}, {mode: pmRun, k: 3, n: 1}} {
+			runHistory(e, c, hs, p, p.String())
+		}
+	})
 	// Smallest fault witness: single-use token, the consuming Delete fails, the token is replayed.
 	e.Corpus("fault-single-use-delete", func(c *ev.Case) {
 		hs := &histSpec{cfg: fixedCfg(bVstore, "header", true), nClients: 1, steps: mkSteps("fetch", "own", "replay-previous")}
-		runHistory(e, c, hs, []vstore.Fault{{Kind: "delete", N: 1}}, "delete#1")
+		// calls: #1 Set (issue), #2 Get (lookup), #3 Delete (consume)
+		for _, p := range []*faultPlan{{mode: pmRun, k: 3, n: 1}, {mode: pmRun, k: 3, n: 2}, {mode: pmOutageReq, k: 3}} {
+			runHistory(e, c, hs, p, p.String())
+		}
 	})
 }
